@@ -1,4 +1,5 @@
 import SeaQ.Model.Render
+import SeaQ.Gen.ColTypes
 /-!
 The schema-statement renderer (`TableBuilder`, `IndexBuilder`, `ForeignKeyBuilder` and their three
 backend implementations): CREATE / ALTER / DROP / RENAME / TRUNCATE TABLE, CREATE / DROP INDEX,
@@ -140,103 +141,100 @@ def intervalFields : Nat → String
   | 6 => "YEAR TO MONTH" | 7 => "DAY TO HOUR" | 8 => "DAY TO MINUTE" | 9 => "DAY TO SECOND"
   | 10 => "HOUR TO MINUTE" | 11 => "HOUR TO SECOND" | _ => "MINUTE TO SECOND"
 
-def opt1 (base : String) : Option Nat → Pieces
-  | some n => [S base, S "(", num n, S ")"]
-  | none => [S base]
-
-def opt2 (base : String) : Option (Nat × Nat) → Pieces
-  | some (p, s) => [S base, S "(", num p, S ", ", num s, S ")"]
-  | none => [S base]
-
 def rEnumVariants : Bool → List String → Pieces
   | _, [] => []
   | first, v :: r => (if first then [] else [S ", "]) ++ [rStrLit v] ++ rEnumVariants false r
 
+/-! The type names are **not** written here: they are taken from the tables the translator regenerates from
+`src/backend/{mysql,postgres,sqlite}/table.rs` (`Gen/ColTypes.lean`, one arm per `match column_type` arm with
+the texts it can write, in source order).  What is written by hand is only *which* of an arm's texts is chosen
+for which parameter shape (`idx*`), and the arms whose text is computed (`Custom`, `Enum`, `Array`,
+Postgres `Interval`). -/
+
+open SeaQ.Gen.ColTypes (Seg Arm)
+
+/-- the Rust name of the variant -/
+def variantName : ColType → String
+  | .char _ => "Char" | .string _ => "String" | .text => "Text" | .blob => "Blob"
+  | .tinyInteger => "TinyInteger" | .smallInteger => "SmallInteger" | .integer => "Integer" | .bigInteger => "BigInteger"
+  | .tinyUnsigned => "TinyUnsigned" | .smallUnsigned => "SmallUnsigned" | .unsigned => "Unsigned" | .bigUnsigned => "BigUnsigned"
+  | .float => "Float" | .double => "Double" | .decimal _ => "Decimal"
+  | .dateTime => "DateTime" | .timestamp => "Timestamp" | .timestampTz => "TimestampWithTimeZone" | .time => "Time"
+  | .date => "Date" | .year => "Year" | .interval _ _ => "Interval"
+  | .binary _ => "Binary" | .varBinary _ => "VarBinary" | .bit _ => "Bit" | .varBit _ => "VarBit"
+  | .boolean => "Boolean" | .money _ => "Money" | .json => "Json" | .jsonBinary => "JsonBinary" | .uuid => "Uuid"
+  | .custom _ => "Custom" | .enum _ _ => "Enum" | .array _ => "Array" | .vector _ => "Vector"
+  | .cidr => "Cidr" | .inet => "Inet" | .macAddr => "MacAddr" | .ltree => "LTree"
+
+def findArm (table : List Arm) (v : String) : Option Arm := table.find? (fun a => a.variants.contains v)
+
+/-- a template with its parameters written as decimal numbers -/
+def segPieces (ρ : String → Nat) : List Seg → Pieces
+  | [] => []
+  | .lit s :: r => S s :: segPieces ρ r
+  | .par n :: r => num (ρ n) :: segPieces ρ r
+
+/-- the `i`-th text the arm of variant `v` can write; an arm that can write nothing panics -/
+def fromTable (table : List Arm) (v : String) (i : Nat) (ρ : String → Nat) : Pieces :=
+  match findArm table v with
+  | some a => (match a.templates[i]? with | some t => segPieces ρ t | none => [.bad])
+  | none => [.bad]
+
+def ρ0 : String → Nat := fun _ => 0
+def ρ1 (n : Nat) : String → Nat := fun _ => n
+def ρ2 (p s : Nat) : String → Nat := fun x => if x == "scale" then s else p
+
+/-- which text of the arm is written, with the parameter values: MySQL -/
+def idxMysql : ColType → Nat × (String → Nat)
+  | .char (some n) | .bit (some n) | .binary n | .varBit n | .string (.n n) | .varBinary (.n n) => (0, ρ1 n)
+  | .char none | .bit none | .string .none | .varBinary .none => (1, ρ0)
+  | .string .max | .varBinary .max => (2, ρ0)
+  | .decimal (some (p, s)) | .money (some (p, s)) => (0, ρ2 p s)
+  | .decimal none | .money none => (1, ρ0)
+  | _ => (0, ρ0)
+
 def rTypeMysql : ColType → Pieces
-  | .char l => opt1 "char" l
-  | .string .none => [S "varchar(255)"] | .string (.n k) => [S "varchar(", num k, S ")"] | .string .max => [S "varchar(65535)"]
-  | .text => [S "text"]
-  | .tinyInteger => [S "tinyint"] | .tinyUnsigned => [S "tinyint", S " ", S "UNSIGNED"]
-  | .smallInteger => [S "smallint"] | .smallUnsigned => [S "smallint", S " ", S "UNSIGNED"]
-  | .integer => [S "int"] | .unsigned => [S "int", S " ", S "UNSIGNED"]
-  | .bigInteger => [S "bigint"] | .bigUnsigned => [S "bigint", S " ", S "UNSIGNED"]
-  | .float => [S "float"] | .double => [S "double"]
-  | .decimal p => opt2 "decimal" p
-  | .dateTime => [S "datetime"] | .timestamp => [S "timestamp"] | .timestampTz => [S "timestamp"]
-  | .time => [S "time"] | .date => [S "date"] | .year => [S "year"]
-  | .interval _ _ => [S "unsupported"]
-  | .binary n => [S "binary(", num n, S ")"]
-  | .varBinary .none => [S "varbinary(255)"] | .varBinary (.n k) => [S "varbinary(", num k, S ")"]
-  | .varBinary .max => [S "varbinary(65535)"]
-  | .blob => [S "blob"]
-  | .bit l => opt1 "bit" l
-  | .varBit n => [S "bit(", num n, S ")"]
-  | .boolean => [S "bool"]
-  | .money p => opt2 "decimal" p
-  | .json => [S "json"] | .jsonBinary => [S "json"] | .uuid => [S "binary(16)"]
   | .custom s => [.raw s.toList]
   | .enum _ vs => [S "ENUM("] ++ (if vs.isEmpty then [rStrLit ""] else rEnumVariants true vs) ++ [S ")"]
-  | .array _ | .vector _ | .cidr | .inet | .macAddr | .ltree => [.bad]
+  | t =>
+    fromTable SeaQ.Gen.ColTypes.mysql (variantName t) (idxMysql t).1 (idxMysql t).2 ++
+      (if SeaQ.Gen.ColTypes.mysqlUnsigned.contains (variantName t) then [S " ", S "UNSIGNED"] else [])
+
+/-- Postgres -/
+def idxPg : ColType → Nat × (String → Nat)
+  | .char (some n) | .bit (some n) | .vector (some n) | .varBit n | .string (.n n) => (0, ρ1 n)
+  | .char none | .bit none | .vector none | .string .none | .string .max => (1, ρ0)
+  | .decimal (some (p, s)) => (0, ρ2 p s)
+  | .decimal none => (1, ρ0)
+  | _ => (0, ρ0)
 
 def rTypePg : ColType → Pieces
-  | .char l => opt1 "char" l
-  | .string (.n k) => [S "varchar(", num k, S ")"] | .string _ => [S "varchar"]
-  | .text => [S "text"]
-  | .tinyInteger | .tinyUnsigned | .smallInteger | .smallUnsigned => [S "smallint"]
-  | .integer | .unsigned => [S "integer"]
-  | .bigInteger | .bigUnsigned => [S "bigint"]
-  | .float => [S "real"] | .double => [S "double precision"]
-  | .decimal p => opt2 "decimal" p
-  | .dateTime => [S "timestamp without time zone"] | .timestamp => [S "timestamp"]
-  | .timestampTz => [S "timestamp with time zone"]
-  | .time => [S "time"] | .date => [S "date"]
   | .interval f p =>
     [S "interval"] ++ (match f with | some i => [S " ", S (intervalFields i)] | none => []) ++
       (match p with | some n => [S "(", num n, S ")"] | none => [])
-  | .binary _ | .varBinary _ | .blob => [S "bytea"]
-  | .bit l => opt1 "bit" l
-  | .varBit n => [S "varbit(", num n, S ")"]
-  | .boolean => [S "bool"]
-  | .money _ => [S "money"]
-  | .json => [S "json"] | .jsonBinary => [S "jsonb"] | .uuid => [S "uuid"]
   | .array e => rTypePg e ++ [S "[]"]
-  | .vector l => opt1 "vector" l
   | .custom s => [.raw s.toList]
   | .enum name _ => [.raw name.toList]
-  | .cidr => [S "cidr"] | .inet => [S "inet"] | .macAddr => [S "macaddr"] | .ltree => [S "ltree"]
-  | .year => [.bad]
+  | t => fromTable SeaQ.Gen.ColTypes.postgres (variantName t) (idxPg t).1 (idxPg t).2
 
-/-- SQLite (feature `option-sqlite-exact-column-type` off) -/
+/-- SQLite (feature `option-sqlite-exact-column-type` off: the last text of the integer arms) -/
+def idxSqlite (isAuto : Bool) : ColType → Nat × (String → Nat)
+  | .char (some n) | .binary n | .string (.n n) | .varBinary (.n n) => (0, ρ1 n)
+  | .char none | .string .none | .string .max | .varBinary .none | .varBinary .max => (1, ρ0)
+  | .tinyInteger | .tinyUnsigned | .smallInteger | .smallUnsigned => (1, ρ0)
+  | .bigInteger | .bigUnsigned => (if isAuto then 0 else 2, ρ0)
+  | .decimal (some (p, s)) | .money (some (p, s)) => (0, ρ2 p s)
+  | .decimal none | .money none => (1, ρ0)
+  | _ => (0, ρ0)
+
 def rTypeSqlite (isAuto : Bool) : ColType → Pieces
-  | .char l => opt1 "char" l
-  | .string (.n k) => [S "varchar(", num k, S ")"] | .string _ => [S "varchar"]
-  | .text => [S "text"]
-  | .tinyInteger | .tinyUnsigned => [S "tinyint"]
-  | .smallInteger | .smallUnsigned => [S "smallint"]
-  | .integer | .unsigned => [S "integer"]
-  | .bigInteger | .bigUnsigned => if isAuto then [S "integer"] else [S "bigint"]
-  | .float => [S "float"] | .double => [S "double"]
-  | .decimal (some (p, s)) => if p > 16 then [.bad] else [S "real(", num p, S ", ", num s, S ")"]
-  | .decimal none => [S "real"]
-  | .dateTime => [S "datetime_text"] | .timestamp => [S "timestamp_text"]
-  | .timestampTz => [S "timestamp_with_timezone_text"]
-  | .time => [S "time_text"] | .date => [S "date_text"]
-  | .binary n => [S "blob(", num n, S ")"]
-  | .varBinary (.n k) => [S "varbinary_blob(", num k, S ")"] | .varBinary _ => [S "varbinary_blob"]
-  | .blob => [S "blob"]
-  | .boolean => [S "boolean"]
-  | .money p => opt2 "real_money" p
-  | .json => [S "json_text"] | .jsonBinary => [S "jsonb_text"] | .uuid => [S "uuid_text"]
   | .custom s => [.raw s.toList]
-  | .enum _ _ => [S "enum_text"]
-  | .interval _ _ | .array _ | .vector _ | .cidr | .inet | .macAddr | .year | .bit _ | .varBit _ | .ltree => [.bad]
+  | .decimal (some (p, s)) =>
+    if p > 16 then [.bad] else fromTable SeaQ.Gen.ColTypes.sqlite "Decimal" 0 (ρ2 p s)
+  | t => fromTable SeaQ.Gen.ColTypes.sqlite (variantName t) (idxSqlite isAuto t).1 (idxSqlite isAuto t).2
 
 /-- Postgres `prepare_column_auto_increment` -/
-def rSerial : ColType → Pieces
-  | .smallInteger => [S "smallserial"]
-  | .integer => [S "serial"]
-  | .bigInteger => [S "bigserial"]
-  | _ => [.bad]
+def rSerial (t : ColType) : Pieces := fromTable SeaQ.Gen.ColTypes.postgresSerial (variantName t) 0 ρ0
 
 def Spec.isAuto : Spec → Bool | .autoIncrement => true | _ => false
 def Spec.isPk : Spec → Bool | .primaryKey => true | _ => false
